@@ -264,9 +264,10 @@ func c18EvCheck(ctx *vfCtx, c c18EvCase) {
 	var tw PDU
 	var twerr error
 	if !s.call("NewEventFromTrustedJSON/wire", func() { tw, twerr = impl.NewEventFromTrustedJSON(c18Copy(c.Event), false) }) && twerr == nil && tw != nil {
-		c18Light(s, tw, "trusted-wire", false)
-		s.call("trusted-wire/Redact", func() { tw.Redact() })
-		c18Light(s, tw, "trusted-wire/redacted", false)
+		twOK := c18Light(s, tw, "trusted-wire", false)
+		if !s.call("trusted-wire/Redact", func() { tw.Redact() }) {
+			c18Light(s, tw, "trusted-wire/Redact", twOK)
+		}
 	}
 
 	if !c.NoRoom {
